@@ -434,15 +434,31 @@ def rule_ready(ctx):
     m = ctx.repo.module('sc3.base.clock')
     f = m.classes['SystemClock'].methods['_run']
     src = full(f.node)
-    ok = U.before(src, 'now = _libsc3.main.elapsed_time()', 'sched_secs = cls._task_queue.peek()[0]', 'if now >= sched_secs: break', 'cls._sched_cond.wait(sched_secs - now)')
+    w_ = [c for c in U.calls(f.node) if U.method_name(c) == 'wait' and c.args]
+    inner, bounded = _timeout(w_[0]) if len(w_) == 1 else (None, False)
+    ok = U.before(src, 'now = _libsc3.main.elapsed_time()', 'sched_secs = cls._task_queue.peek()[0]', 'if now >= sched_secs: break') and \
+        inner == 'sched_secs - now'
     ctx.ob('C08.ready', f'{f.fq}:sleep', ok, 'sleep until the head time: compare now >= head, wait(head - now)', f.node, m)
+    ctx.ob('C08.ready', f'{f.fq}:sleep-bounded', bounded, _BOUND_MSG, f.node, m)
     ok = 'while not cls._task_queue.empty() and now >= cls._task_queue.peek()[0]:' in src
     ctx.ob('C08.ready', f'{f.fq}:perform', ok, 'perform exactly the tasks whose time is <= now, head first', f.node, m)
     f = m.classes['TempoClock'].methods['_run']
     src = full(f.node)
+    w_ = [c for c in U.calls(f.node) if U.method_name(c) == 'wait' and c.args]
+    inner, bounded = _timeout(w_[0]) if len(w_) == 1 else (None, False)
     ok = U.before(src, 'elapsed_beats = self.elapsed_beats()', 'qpeek = self._task_queue.peek()', 'if elapsed_beats >= qpeek[0]: break',
-                  'sched_secs = self.beats2secs(qpeek[0])', 'self._sched_cond.wait(sched_secs - _libsc3.main.elapsed_time())')
+                  'sched_secs = self.beats2secs(qpeek[0])') and inner == 'sched_secs - _libsc3.main.elapsed_time()'
     ctx.ob('C08.ready', f'{f.fq}:sleep', ok, 'compare in beats, sleep in seconds: wait(beats2secs(head) - elapsed seconds)', f.node, m)
+    ctx.ob('C08.ready', f'{f.fq}:sleep-bounded', bounded, _BOUND_MSG, f.node, m)
+    ar = m.classes['AppClock'].methods['_run']
+    w_ = [c for c in U.calls(ar.node) if U.method_name(c) == 'wait' and c.args]
+    okb = False
+    if len(w_) == 1 and isinstance(w_[0].args[0], ast.Name):
+        nm = w_[0].args[0].id
+        okb = any(isinstance(x, ast.Assign) and norm(x.targets[0]) == nm and _is_bounded(x.value, nm) for x in walk_local(ar.node))
+    elif len(w_) == 1:
+        okb = _timeout(w_[0])[1]
+    ctx.ob('C08.ready', f'{ar.fq}:sleep-bounded', okb, _BOUND_MSG, ar.node, m)
     ok = 'while not self._task_queue.empty() and elapsed_beats >= self._task_queue.peek()[0]:' in src
     ctx.ob('C08.ready', f'{f.fq}:perform', ok, 'perform exactly the tasks whose beat is <= the elapsed beat, head first', f.node, m)
     st = m.classes['Scheduler'].setters['seconds']
@@ -450,12 +466,43 @@ def rule_ready(ctx):
     v = st.params[1]
     ok = src.count(f'while self._seconds <= {v}:') == 2
     ctx.ob('C08.ready', f'{st.fq}:perform', ok, 'the AppClock scheduler performs the entries whose time is <= the target time', st.node, m)
+    # the non-recursive branch parks the expired entries in a list first: it is filled in queue order (append of pop) and must be
+    # woken front to back (tasks of one tick in order of scheduled time, ties in scheduling order)
+    fills = [c for c in U.calls(st.node) if U.method_name(c) == 'append' and norm(c.func.value) == 'self._expired']
+    fwd = [lp for lp in walk_local(st.node) if isinstance(lp, ast.For) and norm(lp.iter) in ('self._expired', 'list(self._expired)', 'tuple(self._expired)')
+           and any(U.method_name(c) == '_wakeup' for c in U.calls(lp))]
+    takes = [c for c in U.calls(st.node) if U.method_name(c) in ('pop', 'popleft') and norm(c.func.value) == 'self._expired']
+    front = all((U.method_name(c) == 'popleft') or (len(c.args) == 1 and U.literal(c.args[0]) == 0) for c in takes)
+    backwards = [norm(c) for c in U.calls(st.node) if (U.call_name(c) in ('reversed', 'sorted') and c.args and '_expired' in norm(c.args[0]))
+                 or (U.method_name(c) in ('reverse', 'sort') and norm(c.func.value) == 'self._expired')]
+    ok = bool(fills) and all(norm(c.args[0]) == 'self.queue.pop()' for c in fills) and (bool(fwd) or (bool(takes) and front)) and front and not backwards
+    ctx.ob('C08.ready', f'{st.fq}:expired-in-order', ok,
+           f'the parked entries are filled with {[norm(c) for c in fills]} and taken with {[norm(c) for c in takes] or "a forward loop"}'
+           f'{" / " + str(backwards) if backwards else ""}: they must be woken in the order they left the queue', st.node, m)
     # pop is the only way a task leaves the queue for execution and the item is executed once
     for cname in ('SystemClock', 'TempoClock'):
         g = m.classes[cname].methods['_run']
         pops = [c for c in U.calls(g.node) if U.method_name(c) == 'pop' and is_queue_recv(c.func.value)]
         aw = [c for c in U.calls(g.node) if U.method_name(c) == '__awake__']
         ctx.ob('C08.ready', f'{g.fq}:once', len(pops) == 1 and len(aw) == 1, 'one pop, one __awake__ per performed task', g.node, m)
+
+
+_BOUND_MSG = ('a timed wait longer than threading.TIMEOUT_MAX raises OverflowError in the clock thread (a task scheduled 1e10 s ahead kills the '
+              'clock); the timeout must be min(<remaining>, threading.TIMEOUT_MAX)')
+
+
+def _is_bounded(e, *inner_names):
+    return isinstance(e, ast.Call) and norm(e.func) == 'min' and len(e.args) == 2 and \
+        any(norm(a) in ('threading.TIMEOUT_MAX', 'TIMEOUT_MAX') for a in e.args)
+
+
+def _timeout(call):
+    """(text of the remaining-time expression, bounded?) of a timed wait"""
+    e = call.args[0]
+    if _is_bounded(e):
+        rest = [a for a in e.args if norm(a) not in ('threading.TIMEOUT_MAX', 'TIMEOUT_MAX')]
+        return (norm(rest[0]) if rest else None), True
+    return norm(e), False
 
 
 def _numeric_guard(f, call):
@@ -597,6 +644,13 @@ def run(ctx):
 
 
 MUTANTS = [
+    dict(rule='C08.ready', name='SystemClock sleeps an unbounded timeout (fix reverted)', file='sc3/base/clock.py',
+         old="                    cls._sched_cond.wait(min(\n                        sched_secs - now, threading.TIMEOUT_MAX))", new="                    cls._sched_cond.wait(sched_secs - now)"),
+    dict(rule='C08.ready', name='AppClock sleeps an unbounded timeout (fix reverted)', file='sc3/base/clock.py',
+         old="                    if seconds is not None:\n                        seconds = min(seconds, threading.TIMEOUT_MAX)\n", new=""),
+    dict(rule='C08.ready', name='AppClock wakes the tasks of one tick from the end of the list (seed C08-f)', file='sc3/base/clock.py',
+         old="            for time, item in self._expired:\n                self._seconds = time\n                self._beats = self._clock.secs2beats(time)\n                self._wakeup(item)\n            self._expired.clear()",
+         new="            while self._expired:\n                time, item = self._expired.pop()\n                self._seconds = time\n                self._beats = self._clock.secs2beats(time)\n                self._wakeup(item)"),
     dict(rule='C08.queue', name='queue re-insertion updates the entry in place (seeds C08-e, C05-f)', file='sc3/base/_taskq.py',
          old="        if task in self._entry_finder:\n            self.remove(task)\n        count = next(self._counter)\n        entry = [prio, count, task]\n        self._entry_finder[task] = entry\n        heapq.heappush(self._queue, entry)",
          new="        count = next(self._counter)\n        if task in self._entry_finder:\n            entry = self._entry_finder[task]\n            entry[0] = prio\n            entry[1] = count\n            return\n        entry = [prio, count, task]\n        self._entry_finder[task] = entry\n        heapq.heappush(self._queue, entry)"),
@@ -634,8 +688,8 @@ MUTANTS = [
     dict(rule='C08.notify', name='sched adds directly to the queue', file='sc3/base/clock.py',
          old="                if seconds == float('inf'):\n                    return\n                cls._sched_add(seconds, item)", new="                if seconds == float('inf'):\n                    return\n                cls._task_queue.add(seconds, item)"),
     dict(rule='C08.pred', name='(fix reverted) AppClock waits without the pending flag', file='sc3/base/clock.py',
-         old="                if not cls._tick_pending:\n                    cls._tick_cond.wait(seconds)  # if seconds is None waits for notify\n                cls._tick_pending = False",
-         new="                cls._tick_cond.wait(seconds)  # if seconds is None waits for notify"),
+         old="                if not cls._tick_pending:\n                    if seconds is not None:\n                        seconds = min(seconds, threading.TIMEOUT_MAX)\n                    cls._tick_cond.wait(seconds)  # if seconds is None waits for notify\n                cls._tick_pending = False",
+         new="                if seconds is not None:\n                    seconds = min(seconds, threading.TIMEOUT_MAX)\n                cls._tick_cond.wait(seconds)  # if seconds is None waits for notify"),
     dict(rule='C08.pred', name='notifier does not set the flag', file='sc3/base/clock.py',
          old="                cls._tick_pending = True\n", new=""),
     dict(rule='C08.exc', name='Exception narrowed to ValueError', file='sc3/base/clock.py',
@@ -663,6 +717,9 @@ REPAIRS = []
 
 # behaviour-preserving (for C08) edits that must stay silent
 EQUIV = [
+    dict(name='AppClock drains the parked entries from the front', file='sc3/base/clock.py',
+         old="            for time, item in self._expired:\n                self._seconds = time\n                self._beats = self._clock.secs2beats(time)\n                self._wakeup(item)\n            self._expired.clear()",
+         new="            while self._expired:\n                time, item = self._expired.pop(0)\n                self._seconds = time\n                self._beats = self._clock.secs2beats(time)\n                self._wakeup(item)"),
     dict(name='returned infinity filtered on the computed time inside the branch', file='sc3/base/clock.py',
          old="                        and not isinstance(delta, bool)\\\n                        and delta != float('inf'):  # As sched.\n                            time = sched_time + delta\n                            cls._sched_add(time, task)",
          new="                        and not isinstance(delta, bool):\n                            time = sched_time + delta\n                            if not math.isinf(time):\n                                cls._sched_add(time, task)"),
